@@ -63,6 +63,7 @@ ASSUMPTIONS = [
 ]
 
 SPELLINGS = ["declared", "upper", "padded"]
+SPELLINGS_THOROUGH = SPELLINGS + ["title", "tab_newline"]
 DEVMODES = ["absent", "off", "on"]
 
 TARGETS = {
@@ -95,7 +96,7 @@ def table():
 
 
 def spell(k, how):
-    return k if how == "declared" else k.upper() if how == "upper" else f"  {k} "
+    return {"declared": k, "upper": k.upper(), "padded": f"  {k} ", "title": k.title(), "tab_newline": f"\t{k.upper()}\n"}[how]
 
 
 # =============================================================================== enumeration
@@ -183,7 +184,7 @@ def cases_single(tier):
             path = dotted.split(".")
             for label, value in sr.alternatives(spec, default_of(target, dotted)):
                 for form in forms_for(target, path, value):
-                    for sp in SPELLINGS:
+                    for sp in (SPELLINGS_THOROUGH if tier == "thorough" else SPELLINGS):
                         out.append({"space": "single", "target": target, "form": form, "spelling": sp,
                                     "overrides": [{"path": path, "label": label, "value": sr.enc(value)}]})
     return out
@@ -254,6 +255,16 @@ def _pair_values(target, dotted):
     return [got[k] for k in (VALID, INVALID) if k in got]
 
 
+PAIR_FORMS = {
+    "DailySettings": [("kwargs", "declared"), ("model", "upper"), ("update", "padded")],
+    "DailyLegacySettings": [("kwargs", "declared"), ("model", "upper"), ("update", "padded")],
+    "BillingSettings": [("kwargs", "declared"), ("validate", "upper")],
+    "BaseHourlySettings": [("kwargs", "declared"), ("model_object", "upper")],
+    "HourlySolarSettings": [("kwargs", "declared"), ("model_object", "upper")],
+    "HourlyNonSolarSettings": [("kwargs", "declared"), ("model_object", "upper")],
+}
+
+
 def cases_pairs(tier):
     out = []
     for target in ("DailySettings", "DailyLegacySettings", "BillingSettings", "BaseHourlySettings",
@@ -263,9 +274,10 @@ def cases_pairs(tier):
         vals = {d: _pair_values(target, d) for d in specs}
         for a, b in itertools.combinations(list(specs), 2):
             for (la, va), (lb, vb) in itertools.product(vals[a], vals[b]):
-                out.append({"space": "pairs", "target": target, "form": "kwargs", "spelling": "declared",
-                            "overrides": [{"path": a.split("."), "label": la, "value": sr.enc(va)},
-                                          {"path": b.split("."), "label": lb, "value": sr.enc(vb)}]})
+                for form, sp in PAIR_FORMS[target]:
+                    out.append({"space": "pairs", "target": target, "form": form, "spelling": sp,
+                                "overrides": [{"path": a.split("."), "label": la, "value": sr.enc(va)},
+                                              {"path": b.split("."), "label": lb, "value": sr.enc(vb)}]})
     return out
 
 
@@ -462,6 +474,7 @@ def run_overrides(case):
     fam_fields = t["families"][fam]["fields"]
     hourly = fam in sr.HOURLY_FAMILIES
     viol, beh, stats = [], [], {"constructions": 0}
+    intact_before = not _defaults_intact(fam)
 
     status, exp_tree, norm = sr.evaluate(t, fam, overrides)
     if target == "HourlyModel" and any(p == ["train_features"] for p, _ in overrides):
@@ -504,7 +517,7 @@ def run_overrides(case):
             return {"rejected": "override of a block and of a field inside it"}
         stats["constructions"] += 1
         dev_req = devmode == "on" or any(v is True for v in sets_devmode)
-        key = {"family": fam, "field": dotted}
+        key = {"tree": "hourly" if hourly else "daily", "field": dotted}  # the families of a tree share their declarations
         ctx = f"{target} form={form} spelling={spelling} developer_mode={devmode} overrides={case['overrides']}"
         if o["ok"]:
             stats["accepted"] = stats.get("accepted", 0) + 1
@@ -519,7 +532,7 @@ def run_overrides(case):
             if not hourly:
                 stats["oracle_lock_on_result"] = stats.get("oracle_lock_on_result", 0) + 1
                 if changed and not reported_dev:
-                    viol.append({"clause": "lock_bypassed", "key": {"target": target, "form": form, "changed": ",".join(changed)[:120]},
+                    viol.append({"clause": "lock_bypassed", "key": {"family": fam, "form": form if related_form else "any", "changed": ",".join(changed)[:120]},
                                  "detail": f"accepted without developer mode but developer-only settings differ from the approved "
                                            f"constants: {[(p, sr.get_path(dump, p.split('.'))) for p in changed][:6]} | {ctx}"})
                 if reported_dev and not dev_req:
@@ -572,12 +585,18 @@ def run_overrides(case):
             beh.append(["rejected", o["kind"]])
     # ---- (i) constructions never disturb the class defaults
     bad = _defaults_intact(fam)
-    if bad:
+    if bad and intact_before:
         viol.append({"clause": "defaults_changed_after_construction", "key": {"family": fam, "field": ",".join(bad)[:80]},
-                     "detail": f"a later no-argument {fam}() differs from the table at {bad}"})
+                     "detail": f"a later no-argument {fam}() differs from the table at {bad} (it did not before this case)"})
     definite = status in (VALID, INVALID) or not hourly
-    return {"behaviour": [target, form, spelling, dotted, labels, status, eff_field, eff_dev, beh], "violations": viol,
-            "stats": stats, "nontrivial": bool(definite)}
+    if spelling != "declared":
+        k = "spelling_resolved_to_field" if eff_field else "spelling_not_resolved" if eff_field is False else "spelling_unprobed"
+        stats[k] = stats.get(k, 0) + 1
+    # the behaviour is the outcome class only (no case identity), so that "many cases, one outcome" stays visible
+    behaviour = {"kind": "hourly" if hourly else "daily", "form_class": form.split(":")[0], "reference": status,
+                 "developer_field": bool(overrides_dev_field), "moves_developer_leaf": touches_dev,
+                 "spelling_effective": [eff_field, eff_dev], "modes": beh}
+    return {"behaviour": behaviour, "violations": viol, "stats": stats, "nontrivial": bool(definite)}
 
 
 # =============================================================================== defaults
@@ -642,7 +661,7 @@ def run_defaults(case):
     if type(obj).__name__ != want_cls:
         viol.append({"clause": "default_class_differs", "key": {"constructor": name.split("/")[0]},
                      "detail": f"{name} is a {type(obj).__name__}, approved table says {want_cls}"})
-    return {"behaviour": [name, type(obj).__name__, sr.enc(dump)], "violations": viol, "stats": {"constructions": 1}}
+    return {"behaviour": [type(obj).__name__, sr.enc(dump)], "violations": viol, "stats": {"constructions": 1}}
 
 
 # =============================================================================== assignment
@@ -650,6 +669,7 @@ def run_assign(case):
     target = case["target"]
     fam = TARGETS[target][1]
     cls = sr._classes()[TARGETS[target][0]]
+    intact_before = not _defaults_intact(fam)
     obj = cls()
     path = case["path"]
     holder = obj
@@ -669,11 +689,11 @@ def run_assign(case):
                      "detail": f"{target}().{'.'.join(path)} = {value!r} succeeded ({out}); developer-only settings now differ "
                                f"from the approved constants at {changed} with developer_mode={dump.get('developer_mode')!r}"})
     bad = _defaults_intact(fam)
-    if bad:
+    if bad and intact_before:
         viol.append({"clause": "defaults_changed_after_construction", "key": {"family": fam, "field": ",".join(bad)[:80]},
-                     "detail": f"a later no-argument {fam}() differs from the table at {bad}"})
+                     "detail": f"a later no-argument {fam}() differs from the table at {bad} (it did not before this case)"})
     spec = table()["families"][fam]["fields"][".".join(path)]
-    return {"behaviour": [target, ".".join(path), out, bool(changed)], "violations": viol, "stats": {"assignments": 1},
+    return {"behaviour": [out, bool(changed)], "violations": viol, "stats": {"assignments": 1, "assign:" + out: 1},
             "nontrivial": bool(spec.get("developer"))}
 
 
@@ -722,6 +742,7 @@ def run_stored(case):
     status, exp_tree, norm = sr.evaluate(t, fam, overrides)
     if status != VALID:
         return {"rejected": "variant not valid by the reference"}
+    intact_before = not _defaults_intact(fam)
     recorded = copy.deepcopy(exp_tree)
     recorded.pop("silent_developer_mode", None)
     daily = fam in sr.DAILY_FAMILIES
@@ -786,11 +807,12 @@ def run_stored(case):
                          "detail": f"settings after to_json -> from_json differ at "
                                    f"{sr.diff_paths(_modulo_flag(again, billing), _modulo_flag(built, billing))} | {ctx}"})
     bad = _defaults_intact(fam)
-    if bad:
+    if bad and intact_before:
         viol.append({"clause": "defaults_changed_after_construction", "key": {"family": fam, "field": ",".join(bad)[:80]},
-                     "detail": f"a later no-argument {fam}() differs from the table at {bad}"})
-    return {"behaviour": [st_target, type(m.settings).__name__, sr.enc(built), rec.get("developer_mode"), bool(buf.getvalue())],
-            "violations": viol, "stats": {"documents": 1}}
+                     "detail": f"a later no-argument {fam}() differs from the table at {bad} (it did not before this case)"})
+    return {"behaviour": [st_target, type(m.settings).__name__, built.get("developer_mode"), rec.get("developer_mode"),
+                          bool(buf.getvalue()), len(viol)],
+            "violations": viol, "stats": {"documents": 1, "stored_settings_compared": 1}}
 
 
 # =============================================================================== dispatch
@@ -833,7 +855,8 @@ def run(tier, seed):
     cov["constructions"] = sum(e.stats.get("constructions", 0) for e in exps)
     cov["documents"] = sum(e.stats.get("documents", 0) for e in exps)
     cov["oracle_applications"] = {k: sum(e.stats.get(k, 0) for e in exps)
-                                  for k in sorted({k for e in exps for k in e.stats}) if k.startswith(("oracle_", "rejected:", "accepted"))}
+                                  for k in sorted({k for e in exps for k in e.stats})
+                                  if k.startswith(("oracle_", "rejected:", "accepted", "spelling_", "assign:", "stored_"))}
     cov["fields_per_family"] = {f: len(v["fields"]) for f, v in t["families"].items()}
     cov["developer_only_leaves_per_family"] = {f: len(sr.developer_leaves(t, f)) for f in t["families"]}
     cov["vacuous"] = [f"lock clause (ii) is vacuous for {f}: no developer-only field is declared"
